@@ -1,4 +1,5 @@
 import Dm.Lemmas.FmtBytes
+import Dm.Lemmas.ErrorSrc
 import Dm.Gen.PanicSites
 
 /-
@@ -72,6 +73,94 @@ theorem take_until1_spec {basic until_ : P} (hb : WB basic) (hu : NoPanic until_
       have : input = (pre0 ++ pre) ++ r := by rw [heq0, heq, List.append_assoc]
       conv => lhs; rw [this]
       exact sliceConsumed_suffix (pre0 ++ pre) r
+
+/-! ### (part b) the index expressions of `error.rs`
+
+`ParsedFields::{source, backtrace}` are positions among the *enabled* fields; `data.members`,
+`data.field_indexes`, `data.field_types` and `data.infos` have one entry per enabled field, and the
+entries of `field_indexes` are positions among all fields (handed to `matcher`). Every
+`data.<vec>[source]` / `[backtrace]` of `render_*`, `parse_fields` and `infer_source_field` is
+therefore in bounds iff the selected position is below the number of enabled fields. -/
+
+open Dm.Err in
+theorem inferSource_in_bounds (sh : Shape) (b : Option Nat) (k : Nat) (h : inferSource sh b = some k) :
+    k < (enabledFields sh).length := by
+  unfold inferSource at h
+  by_cases hl : sh.fields.length ≠ 2
+  · simp [hl] at h
+  · simp only [hl, if_false] at h
+    cases b with
+    | none => simp at h
+    | some bk =>
+      simp only at h
+      cases hb : allIdx sh bk with
+      | none => simp [hb] at h
+      | some bAll =>
+        simp only [hb] at h
+        cases hf : (enabledFields sh).findIdx? (fun x => decide (x.1 = (bAll + 1) % 2)) with
+        | none => simp [hf] at h
+        | some k' =>
+          simp only [hf] at h
+          cases hg : (enabledFields sh)[k']? with
+          | none => simp [hg] at h
+          | some x =>
+            obtain ⟨i, f⟩ := x
+            simp only [hg] at h
+            split at h
+            · cases h; exact (List.getElem?_eq_some_iff.1 hg).1
+            · cases h
+
+open Dm.Err in
+/-- Whatever `parse_fields` selects — explicitly, by name or type, or through the two-field-tuple
+inference — is a position of an enabled field: no `index out of bounds` at the sites above, for
+every number of fields, every attribute placement and every position of ignored fields. -/
+theorem error_positions_in_bounds (sh : Shape) (s b : Option Nat) (h : parseFields sh = .ok (s, b)) :
+    (∀ k, s = some k → k < (enabledFields sh).length)
+    ∧ (∀ k, b = some k → k < (enabledFields sh).length) := by
+  have bound : ∀ (w : Which) (k : Nat), parseField sh w = .ok (some k) → k < (enabledFields sh).length := by
+    intro w k hk
+    obtain ⟨x, hx⟩ := parseField_valid sh w k hk
+    exact (List.getElem?_eq_some_iff.1 hx).1
+  unfold parseFields at h
+  cases hs : parseField sh .source with
+  | error e => simp [hs, bind, Except.bind] at h
+  | ok s0 =>
+    cases hb : parseField sh .backtrace with
+    | error e => simp [hs, hb, bind, Except.bind] at h
+    | ok b0 =>
+      simp only [hs, hb, bind, Except.bind, pure, Except.pure] at h
+      have hbb : ∀ k, b0 = some k → k < (enabledFields sh).length := by
+        intro k hk; subst hk; exact bound .backtrace k hb
+      by_cases hn : sh.named = true
+      · simp only [hn, if_true] at h
+        cases h
+        exact ⟨fun k hk => by subst hk; exact bound .source k hs, hbb⟩
+      · simp only [hn] at h
+        cases s0 with
+        | some k0 =>
+          cases h
+          exact ⟨fun k hk => by cases hk; exact bound .source _ hs, hbb⟩
+        | none =>
+          cases h
+          exact ⟨fun k hk => inferSource_in_bounds sh _ k hk, hbb⟩
+
+open Dm.Err in
+/-- The entries of `field_indexes` are positions among all fields (`matcher`, `members` of the
+whole struct): in bounds too. -/
+theorem error_all_index_in_bounds (sh : Shape) (k i : Nat) (h : allIdx sh k = some i) :
+    i < sh.fields.length := by
+  unfold allIdx at h
+  cases hk : (enabledFields sh)[k]? with
+  | none => simp [hk] at h
+  | some x =>
+    simp only [hk, Option.map_some, Option.some.injEq] at h
+    have hm : x ∈ enabledFields sh := List.mem_of_getElem? hk
+    unfold enabledFields at hm
+    simp only [List.mem_map, List.mem_filter] at hm
+    obtain ⟨y, ⟨hy, _⟩, rfl⟩ := hm
+    have := zipIdx_getElem sh.fields y hy
+    subst h
+    exact (List.getElem?_eq_some_iff.1 this).1
 
 /-- The inventory of potentially aborting expressions of `impl/src` (index / slice expressions,
 `unwrap` / `expect`, `panic!`-family macros, `-` `/` `%`, `Punctuated::push_*`, `Ident::new`,
